@@ -185,6 +185,64 @@ func VP_C13_save_container_biome() {
 	vp.Cover("end")
 }
 
+// containers holding direct ids whose number of distinct values sits at or next
+// to a power of two when saved: 511..1025 block states over 1100 positions, and
+// containers that reached the direct representation (300 states, 9 biomes) and
+// were overwritten down to 1..17 distinct values (they stay direct; the save
+// form gets the palette of what is left).
+func VP_C13_save_container_direct_counts() {
+	if vp.Choice(2) == 0 {
+		L := 1100
+		var distinct, keep int
+		if vp.Choice(2) == 0 {
+			distinct = []int{511, 512, 513, 1023, 1024, 1025}[vp.Choice(6)]
+			keep = distinct
+		} else {
+			distinct = 300
+			keep = []int{1, 2, 3, 4, 8, 16, 17}[vp.Choice(7)]
+		}
+		c := NewStatesPaletteContainer(L, 0)
+		model := make([]BlocksState, L)
+		odd := vpStateID()
+		vp.Assume(odd > 9000)
+		for i := 0; i < L; i++ {
+			c.Set(i, BlocksState(7*(i%distinct)))
+		}
+		for i := 0; i < L; i++ {
+			v := BlocksState(7 * (i % keep))
+			if i%keep == keep-1 {
+				v = odd
+			}
+			c.Set(i, v)
+			model[i] = v
+		}
+		pal, data := vpSavedForm(c)
+		c2 := NewStatesPaletteContainerWithData(L, data, pal)
+		for i := 0; i < L; i++ {
+			vp.Assert(c2.Get(i) == model[i], "save form read back: same block state at every position")
+		}
+	} else {
+		const L = 64
+		keep := []int{1, 2, 3, 4, 5, 8, 9, 16}[vp.Choice(8)]
+		c := NewBiomesPaletteContainer(L, 0)
+		model := make([]BiomesState, L)
+		for i := 0; i < L; i++ {
+			c.Set(i, BiomesState(20+i%9))
+		}
+		for i := 0; i < L; i++ {
+			v := BiomesState(3 * (i % keep))
+			c.Set(i, v)
+			model[i] = v
+		}
+		pal, data := vpSavedFormBiome(c)
+		c2 := NewBiomesPaletteContainerWithData(L, data, pal)
+		for i := 0; i < L; i++ {
+			vp.Assert(c2.Get(i) == model[i], "save form read back: same biome at every position")
+		}
+	}
+	vp.Cover("end")
+}
+
 // vpMiniRegistry: under the engine the 26k-state registry (built by the block
 // package's init from an embedded gzip file) does not exist; a four-state
 // registry whose ids and names coincide with the real ones (0..3: air, stone,
